@@ -81,6 +81,11 @@ func (x *runner) wedged() bool { return x.stuck >= maxStuck }
 
 func classes(sc *Scenario) []string {
 	cl := []string{"mode/" + sc.Mode}
+	if sc.WS {
+		cl = append(cl, "framing/websocket")
+	} else {
+		cl = append(cl, "framing/tcp")
+	}
 	if sc.DLSup {
 		cl = append(cl, "transport/deadlines")
 	} else {
@@ -279,6 +284,18 @@ func corpus() []*Scenario {
 	add("default IQ reply after Close", true, sv, cl, peer("elem", true, false, "iq"))
 	add("handler replies then fails", true, sv, peer("elem", true, true, ""), cl)
 	add("default IQ reply, then close", false, sv, peer("elem", true, false, "iq"), peer("close", false, false, ""))
+	addWS := func(note string, dl bool, as ...Actor) {
+		out = append(out, &Scenario{Mode: "forced", DLSup: dl, WS: true, Actors: as, Note: "websocket: " + note})
+	}
+	addWS("peer closes with the framing <close/>", true, sv, peer("close", false, false, ""), Actor{Kind: "probe"}, Actor{Kind: "send"})
+	addWS("peer closes, no deadlines", false, sv, peer("elem", true, false, ""), peer("close", false, false, ""), Actor{Kind: "probe"})
+	addWS("close twice, then transmit", true, cl, cl, Actor{Kind: "send"}, Actor{Kind: "encode"}, Actor{Kind: "tokenwriter"})
+	addWS("close, then the peer closes", true, sv, cl, peer("close", false, false, ""))
+	addWS("peer stream error", true, sv, peer("error", false, false, ""), Actor{Kind: "probe"})
+	addWS("peer restarts the stream", true, sv, peer("bad", false, false, "restart"), Actor{Kind: "probe"})
+	addWS("handler fails", false, sv, peer("elem", false, true, ""), cl)
+	addWS("deadline passes after Close", true, sv, Actor{Kind: "setdeadline", Past: true}, cl, Actor{Kind: "probe"})
+	addWS("default IQ reply, then close", true, sv, peer("elem", true, false, "iq"), peer("close", false, false, ""))
 	add("real deadline", true, sv, Actor{Kind: "setdeadline"}, cl, Actor{Kind: "timer"}, Actor{Kind: "probe"})
 	add("real deadline, no deadlines on the transport", false, sv, Actor{Kind: "setdeadline"}, Actor{Kind: "timer"}, peer("elem", false, false, ""))
 	return out
@@ -311,11 +328,19 @@ func exhaustiveSets() []*Scenario {
 	add(true, cl, cl, Actor{Kind: "send"})
 	add(true, sv, peer("close", false, false, ""), cl, Actor{Kind: "send"})
 	add(true, sv, peer("elem", false, true, ""), cl, Actor{Kind: "encodenf"})
+	addWS := func(dl bool, as ...Actor) {
+		out = append(out, &Scenario{Mode: "forced", DLSup: dl, WS: true, Actors: as, Note: "enumerated, websocket"})
+	}
+	addWS(true, cl, cl)
+	addWS(true, cl, Actor{Kind: "send"})
+	addWS(true, sv, peer("close", false, false, ""), cl)
+	addWS(false, sv, peer("elem", true, false, ""), cl)
+	addWS(true, sv, peer("error", false, false, ""), Actor{Kind: "encode"})
 	return out
 }
 
 func randomScenario(r *hx.Rand) *Scenario {
-	sc := &Scenario{Mode: "forced", DLSup: r.Chance(2, 3), Recv: r.Chance(1, 4)}
+	sc := &Scenario{Mode: "forced", DLSup: r.Chance(2, 3), Recv: r.Chance(1, 4), WS: r.Chance(1, 4)}
 	var as []Actor
 	for n := r.Intn(3); n > 0; n-- {
 		as = append(as, Actor{Kind: "close"})
@@ -554,8 +579,8 @@ func main() {
 		x.deadlineRaces(nRace)
 		x.wsProbes()
 	}
-	res.Rule = "forced schedules over the yield points of session.go: a built-in corpus run in order; every schedule (up to a cap) of 19 small actor sets; " +
-		"random sets of 1-12 actors (Close x0-2, transmitters of every family and API, Serve with a peer script of elements/close/stream error/bad input, " +
+	res.Rule = "forced schedules over the yield points of session.go: a built-in corpus run in order; every schedule (up to a cap) of 24 small actor sets (5 of them on WebSocket-subprotocol sessions); " +
+		"random sets of 1-12 actors, a quarter of them on sessions negotiated by websocket.NewSession (Close x0-2, transmitters of every family and API, Serve with a peer script of elements/close/stream error/bad input, " +
 		"SetCloseDeadline, token-reader probe) under random schedules; real-timer scenarios; free-running concurrent scenarios (oracle only). " +
 		"distinct = hash of actors + realised decisions; non-trivial = the scenario contains a Close caller or Serve"
 	res.CaseFiles = append(res.CaseFiles, x.cf.Write(o.Out, 300)...)
